@@ -1,4 +1,5 @@
 import BHS.Props.C03
+import BHS.Props.SqlShape
 open BHS.Props.C03
 #print axioms C03_stored_row
 #print axioms C03_work_exact
@@ -11,3 +12,4 @@ open BHS.Props.C03
 #print axioms C03_derived_invariant
 #print axioms C03_derived_all
 #print axioms C03_sql_writes
+#print axioms BHS.Props.SqlShape.add_statements
